@@ -48,7 +48,9 @@
     instrHeader_roundtrip_exact (3rd part), instrHeader_tail_counterexample   InstrHeader.UnmarshalBinary rejects ANY trailing byte (len != 4)
     errorMsg_experimenter_kind_counterexample         ErrorMsg value with Type 0xffff comes back as a VendorError (first 4 data bytes = id)
     errorMsg_experimenter_short_counterexample        … with < 4 data bytes Parse returns an ERROR (VendorError decoder panics, recovered)
-    packetIn_tail_counterexample, hello_tail_counterexample   bytes behind the message are swallowed (frame payload / extra hello elements)
+    errorMsg_experimenter_becomes_vendorError, errorMsg_experimenter_short_never_parses   the same two facts for ALL values
+    packetIn_tail_counterexample, hello_tail_counterexample   bytes behind the message are swallowed (frame payload / extra hello elements);
+    packetIn_ignores_headerLength, packetIn_tail_swallowed   … for PacketIn in general (the decoder never reads Header.Length)
     parse_unhandled_types (all buffers), bundleAdd_unhandled_inner_never_decodes, bundleAdd_groupMod_counterexample
                                                       D28 in general; consequence: a BundleAdd carrying group-mod / port-mod / packet-out /
                                                       table-mod NEVER decodes (Parse of the bundle message: error)
@@ -66,6 +68,9 @@ import OFV.Lemmas.RT4b
 import OFV.Lemmas.RT4c
 import OFV.Lemmas.RT4d
 import OFV.Lemmas.RT4e
+import OFV.Lemmas.RT4f
+import OFV.Lemmas.RT4g
+import OFV.Lemmas.RT4h
 namespace OFV.Props.C05d
 open OFV OFV.Go OFV.Model OFV.RT OFV.RT2 OFV.RT3 OFV.RT4 OFV.Props.C05
 
@@ -174,16 +179,13 @@ example : FlowStatsRequest.new = .obj "FlowStatsRequest" [.num 0, .bytes (zeros 
 
 /-! ### the same bodies decoded into `new(T)` (nil pads) and into the constructors' values -/
 
-/-- copying into a nil pad copies nothing -/
-theorem copyInto_nil (x : Bytes) : copyInto [] x = [] := by simp [copyInto]
-
 /-- PortStatsRequest decoded into `new(PortStatsRequest)`: the pad is nil there and stays nil (`copy` into a nil slice); the value
     with the nil pad encodes to the same 8 bytes (the encoder's buffer is zero-filled) -/
 theorem portStatsRequest_zero_receiver (p : Nat) (hp : p < 65536) :
     RoundTrip PortStatsRequest.marshalM (PortStatsRequest.unmarshal PortStatsRequest.zero)
       (.obj "PortStatsRequest" [.num p, .bytes (zeros 6)]) (.obj "PortStatsRequest" [.num p, .bytes []]) (be16 (n16 p) ++ zeros 6) := by
   refine ⟨portStatsRequest_enc p (zeros 6) (by decide), portStatsRequest_enc p [] (by decide), fun data tail hd hb => ?_⟩
-  rw [PortStatsRequest.zero, portStatsRequest_dec p (zeros 6) [] (.num 0) hp data tail hd hb, copyInto_nil]
+  rw [PortStatsRequest.zero, portStatsRequest_dec p (zeros 6) [] (.num 0) hp data tail hd hb, RT.copyInto_nil]
 
 /-- QueueStatsRequest decoded into `new(QueueStatsRequest)`: likewise -/
 theorem queueStatsRequest_zero_receiver (p q : Nat) (hp : p < 65536) (hq : q < 4294967296) :
@@ -191,7 +193,7 @@ theorem queueStatsRequest_zero_receiver (p q : Nat) (hp : p < 65536) (hq : q < 4
       (.obj "QueueStatsRequest" [.num p, .bytes (zeros 2), .num q]) (.obj "QueueStatsRequest" [.num p, .bytes [], .num q])
       (be16 (n16 p) ++ zeros 2 ++ be32 (n32 q)) := by
   refine ⟨queueStatsRequest_enc p q (zeros 2) (by decide), queueStatsRequest_enc p q [] (by decide), fun data tail hd hb => ?_⟩
-  rw [QueueStatsRequest.zero, queueStatsRequest_dec p q (zeros 2) [] (.num 0) (.num 0) hp hq rfl data tail hd hb, copyInto_nil]
+  rw [QueueStatsRequest.zero, queueStatsRequest_dec p q (zeros 2) [] (.num 0) (.num 0) hp hq rfl data tail hd hb, RT.copyInto_nil]
 
 /-- FlowStatsRequest / AggregateStatsRequest decoded into `new(T)`: both pads come back nil, every exported field is the same, the
     re-encoding is the same bytes -/
@@ -212,13 +214,13 @@ theorem flowStatsRequest_zero_receiver (t op og c cm : Nat) (m : V)
       statsReq_enc _ t op og c cm [] [] m mbs (by decide) (by decide) hmm, fun data tail hd hb => ?_⟩⟩
   · have := statsReq_dec "FlowStatsRequest" t op og c cm (zeros 3) (zeros 4) [] [] m (.num 0) (.num 0) (.num 0) (.num 0) (.num 0)
       ht hop hog hc hcm rfl rfl hm mbs hmm data tail hd hb
-    simp only [copyInto_nil] at this
+    simp only [RT.copyInto_nil] at this
     simp only [FlowStatsRequest.unmarshal, FlowStatsRequest.zero, msgMatchZero]
     erw [this]
     rfl
   · have := statsReq_dec "AggregateStatsRequest" t op og c cm (zeros 3) (zeros 4) [] [] m (.num 0) (.num 0) (.num 0) (.num 0) (.num 0)
       ht hop hog hc hcm rfl rfl hm mbs hmm data tail hd hb
-    simp only [copyInto_nil] at this
+    simp only [RT.copyInto_nil] at this
     simp only [AggregateStatsRequest.unmarshal, AggregateStatsRequest.zero, msgMatchZero]
     erw [this]
     rfl
@@ -490,6 +492,39 @@ theorem errorMsg_experimenter_short_counterexample :
     ErrorMsg.unmarshal ErrorMsg.zero (Slice.exact bs) = .ok v := by
   refine ⟨by rfl, by rfl, by rfl⟩
 
+/-- IN GENERAL: an ErrorMsg value of type ET_EXPERIMENTER whose data starts with four bytes `be32 x` encodes to exactly the bytes of
+    the VendorError with experimenter id `x` and the remaining data, and Parse (buffer holding exactly the message) returns THAT
+    VendorError — never the ErrorMsg. -/
+theorem errorMsg_experimenter_becomes_vendorError (ver xid c x : Nat) (d : Bytes) (hver : ver < 256) (hxid : xid < 4294967296)
+    (hc : c < 65536) (hx : x < 4294967296) (hd : 16 + d.length < 65536) :
+    let t := Gen.openflow13.ET_EXPERIMENTER
+    let bs := [n8 ver, n8 Gen.openflow13.Type_Error] ++ be16 (n16 (16 + d.length)) ++ be32 (n32 xid) ++ be16 (n16 t) ++ be16 (n16 c)
+      ++ be32 (n32 x) ++ d
+    (∀ ln0, ErrorMsg.marshalM (errorMsgV ver ln0 xid t c (be32 (n32 x) ++ d)) = .ok (bs, errorMsgV ver (16 + d.length) xid t c (be32 (n32 x) ++ d))) ∧
+    ∀ (depth : Nat) (data : Slice), data.WF → data.bytes = bs → parse depth data = .ok (vendorErrorV ver (16 + d.length) xid t c x d) := by
+  intro t bs
+  refine ⟨fun ln0 => ?_, fun depth data hdw hb => ?_⟩
+  · have h := errorMsg_enc ver xid t c (be32 (n32 x) ++ d) (by simp only [List.length_append, be32_length]; omega) ln0
+    have hl : 12 + (be32 (n32 x) ++ d).length = 16 + d.length := by simp only [List.length_append, be32_length]; omega
+    rw [hl] at h
+    rw [h]
+    simp only [bs, List.append_assoc]
+  · have := (vendorError_rt ver xid c x d hver hxid hc hx hd).2 depth data [] hdw (by rw [hb, List.append_nil])
+    rw [List.append_nil] at this
+    exact this
+
+/-- … and whenever such an ErrorMsg carries fewer than four data bytes, Parse of its encoding is an ERROR (every version, xid,
+    code, data): `VendorError.UnmarshalBinary` reads `data[12:16]` behind the end of the buffer, panics, Parse recovers. -/
+theorem errorMsg_experimenter_short_never_parses (ver xid c : Nat) (d : Bytes) (hver : ver < 256) (hxid : xid < 4294967296)
+    (hd : d.length < 4) (depth : Nat) (data : Slice) (hdw : data.WF)
+    (hb : data.bytes = [n8 ver, n8 Gen.openflow13.Type_Error] ++ be16 (n16 (12 + d.length)) ++ be32 (n32 xid)
+      ++ be16 (n16 Gen.openflow13.ET_EXPERIMENTER) ++ be16 (n16 c) ++ d) :
+    parse depth data = .err ∧
+    ∀ ln0, ErrorMsg.marshalM (errorMsgV ver ln0 xid Gen.openflow13.ET_EXPERIMENTER c d) = .ok (data.bytes,
+      errorMsgV ver (12 + d.length) xid Gen.openflow13.ET_EXPERIMENTER c d) :=
+  ⟨errorMsg_experimenter_short_err ver xid c d hver hxid hd depth data hdw hb,
+    fun ln0 => by rw [hb]; exact errorMsg_enc ver xid _ c d (by omega) ln0⟩
+
 /-- the packet-in of the example below: opaque LLDP-ethertype frame with payload `d`, empty OXM match, Header.Length `ln` -/
 def pinEx (ln : Nat) (d : Bytes) : V :=
   packetInV 4 ln 7 9 128 1 2 3 Match.new [] (ethOpaqueV [1, 2, 3, 4, 5, 6] [7, 8, 9, 10, 11, 12] 35020 d)
@@ -506,6 +541,45 @@ theorem packetIn_tail_counterexample :
     parse 0 (Slice.exact (bs ++ [170, 187])) = .ok (pinEx 51 [1, 2, 3, 170, 187]) ∧
     ∃ bs', PacketIn.marshalM (pinEx 51 [1, 2, 3, 170, 187]) = .ok (bs', pinEx 53 [1, 2, 3, 170, 187]) ∧ bs'.length = 53 := by
   refine ⟨by rfl, by rfl, by rfl, _, by rfl, by rfl⟩
+
+/-- IN GENERAL: `PacketIn.UnmarshalBinary` never looks at Header.Length.  For ANY Length `lnH` in the header, Parse of header, 16 fixed
+    bytes, match, 2 pad bytes and a frame `eb` (any frame that round-trips on its own, `EthRT`) up to the end of the buffer returns the
+    packet-in with that frame and Header.Length `lnH` as found. -/
+theorem packetIn_ignores_headerLength (ver lnH xid b t r ti c : Nat) (m eth : V) (eb mbs : Bytes)
+    (hver : ver < 256) (hlnH : lnH < 65536) (hxid : xid < 4294967296) (hb32 : b < 4294967296) (ht : t < 65536) (hr : r < 256)
+    (hti : ti < 256) (hc : c < 18446744073709551616) (hm : MatchWF m) (hmm : Match.marshalM m = .ok (mbs, m)) (heth : EthRT eth eb)
+    (hL : 26 + mbs.length + eb.length < 65536) (depth : Nat) (data : Slice) (hdw : data.WF)
+    (hb : data.bytes = [n8 ver, n8 Gen.openflow13.Type_PacketIn] ++ be16 (n16 lnH) ++ be32 (n32 xid)
+        ++ (be32 (n32 b) ++ be16 (n16 t) ++ [n8 r, n8 ti] ++ be64 (n64 c)) ++ mbs ++ zeros 2 ++ eb) :
+    parse depth data = .ok (packetInV ver lnH xid b t r ti c m [] eth) :=
+  packetIn_decode_anyLength ver lnH xid b t r ti c m eth eb mbs hver hlnH hxid hb32 ht hr hti hc hm hmm heth hL depth data hdw hb
+
+/-- … hence bytes behind a packet-in are swallowed into the frame: for an opaque frame (untagged, ethertype not VLAN / IPv4 / IPv6 / ARP)
+    with payload `d`, Parse of the encoding (Header.Length L) followed by ANY `tail` returns the packet-in whose frame payload is
+    `d ++ tail` — the original value only when `tail = []` (C05.packetIn_roundtrip); re-encoding gives Length L + |tail|. -/
+theorem packetIn_tail_swallowed (ver xid b t r ti c et : Nat) (m : V) (dst src d mbs tail : Bytes)
+    (hver : ver < 256) (hxid : xid < 4294967296) (hb32 : b < 4294967296) (ht : t < 65536) (hr : r < 256)
+    (hti : ti < 256) (hc : c < 18446744073709551616) (hm : MatchWF m) (hmm : Match.marshalM m = .ok (mbs, m))
+    (hdst : dst.length = 6) (hsrc : src.length = 6) (het : et < 65536)
+    (hne : et ≠ Gen.protocol.VLAN_MSG ∧ et ≠ Gen.protocol.IPv4_MSG ∧ et ≠ Gen.protocol.IPv6_MSG ∧
+      et ≠ Gen.protocol.ARP_MSG)
+    (hL : 26 + mbs.length + (14 + d.length + tail.length) < 65536) (depth : Nat) (data : Slice) (hdw : data.WF) :
+    let L := 26 + mbs.length + (14 + d.length)
+    data.bytes = [n8 ver, n8 Gen.openflow13.Type_PacketIn] ++ be16 (n16 L) ++ be32 (n32 xid)
+        ++ (be32 (n32 b) ++ be16 (n16 t) ++ [n8 r, n8 ti] ++ be64 (n64 c)) ++ mbs ++ zeros 2 ++ (dst ++ src ++ be16 (n16 et) ++ d) ++ tail →
+    parse depth data = .ok (packetInV ver L xid b t r ti c m [] (ethOpaqueV dst src et (d ++ tail))) := by
+  intro L hb
+  have heth := ethRT_opaque dst src et (d ++ tail) hdst hsrc het hne (by simp only [List.length_append]; omega)
+  have hel : (dst ++ src ++ be16 (n16 et) ++ (d ++ tail)).length = 14 + d.length + tail.length := by
+    simp only [List.length_append, be16_length, hdst, hsrc]; omega
+  exact packetIn_decode_anyLength ver L xid b t r ti c m _ _ mbs hver (by simp only [L]; omega) hxid hb32 ht hr hti hc hm hmm heth
+    (by rw [hel]; omega) depth data hdw (by rw [hb]; simp only [List.append_assoc])
+
+/-- satisfiable: the LLDP ethertype 0x88cc of packetIn_tail_counterexample (which is the instance d = 01 02 03, tail = AA BB) and
+    the empty OXM match -/
+example : (35020 ≠ Gen.protocol.VLAN_MSG ∧ 35020 ≠ Gen.protocol.IPv4_MSG ∧ 35020 ≠ Gen.protocol.IPv6_MSG ∧ 35020 ≠ Gen.protocol.ARP_MSG) ∧
+    Match.marshalM Match.new = .ok ([0, 1, 0, 4, 0, 0, 0, 0], Match.new) :=
+  ⟨by decide, by rfl⟩
 
 /-! ### consequences of D28 (Parse has no case for packet-out / group-mod / port-mod / table-mod / queue-get-config) -/
 
